@@ -241,6 +241,8 @@ def build(ctx, name, fn=None):
         return e
     if name in EXECUTOR_ENTRIES:
         me = e.me = ManualExecutor(ev)
+        if ctx.params.get("falsy_futures"):
+            me.future_class = FalsyRecFuture  # the delegate hands out future objects that are falsy
         call = fn or (lambda: e.value)
         if name == "map":
             ex = MapExecutor(me, userfn(lambda x: x))
